@@ -220,6 +220,10 @@ static void forward(LEG *g, int dir)
 				case 1: { uint8_t t[] = { 22, rec[1], rec[2], 0, 8, 14, 0, 0, 4, 1, 2, 3, 4 }; memcpy(injrec, t, sizeof t); injlen = sizeof t; } break;
 				case 2: { uint8_t t[] = { 20, rec[1], rec[2], 0, 1, 1 }; memcpy(injrec, t, sizeof t); injlen = sizeof t; } break;
 				case 3: { uint8_t t[] = { 21, rec[1], rec[2], 0, 2, 1, 0 }; memcpy(injrec, t, sizeof t); injlen = sizeof t; } break;
+				case 5: { uint8_t t[] = { 22, rec[1], rec[2], 0, 0 }; memcpy(injrec, t, sizeof t); injlen = sizeof t; } break;                      // an empty handshake record
+				case 6: { uint8_t t[] = { 21, rec[1], rec[2], 0, 2, 1, 90 }; memcpy(injrec, t, sizeof t); injlen = sizeof t; } break;               // warning alert user_canceled
+				case 7: { uint8_t t[] = { 21, rec[1], rec[2], 0, 2, 1, 100 }; memcpy(injrec, t, sizeof t); injlen = sizeof t; } break;              // warning alert no_renegotiation
+				case 8: { uint8_t t[] = { 22, rec[1], rec[2], 0, 4, 0, 0, 0, 0 }; memcpy(injrec, t, sizeof t); injlen = sizeof t; } break;          // HelloRequest (type 0, empty)
 				default: { uint8_t t[] = { 23, rec[1], rec[2], 0, 4, 9, 9, 9, 9 }; memcpy(injrec, t, sizeof t); injlen = sizeof t; } break;
 				}
 			} else applied = "none";
